@@ -165,7 +165,8 @@ def auth_session(rng):
         if rng.random() < 0.3: chunks.append(rng.choice([b'RSET\r\n', b'EHLO again.example.net\r\n', b'HELO again.example.net\r\n', b'NOOP\r\n']))
         if rng.random() < 0.25:
             # a greeting that is refused (blank inside the argument), then what a client may try next
-            chunks.append(rng.choice([b'EHLO client example\r\n', b'HELO client example\r\n', b'EHLO a b\r\n']))
+            chunks.append(rng.choice([b'EHLO client example\r\n', b'HELO client example\r\n', b'EHLO a b\r\n', b'HELO \r\n']))
+            if rng.random() < 0.3: chunks.append(b'STARTTLS\r\n')       # the ESMTP flag, not only the command state, guards STARTTLS
             if rng.random() < 0.7: chunks.append(rng.choice([b'RSET\r\n', b'NOOP\r\n']))
             chunks.append(auth_line(rng, rng.choice(['good', 'good', 'wrongpw'])))
         chunks.append(mail(rng, rng.choice(['ok', 'ok', 'bounce'])))
